@@ -195,10 +195,11 @@ Definition periodic_task (can_id : Z) (data : list Z) (period : Z) (remote : boo
   : frame * list (frame * Z) :=
   let m := mk_frame can_id data remote in (m, [(m, period)]).
 
-(* PeriodicMessageTask.update(data):  self.msg.data = new_data  - in place, every other attribute of
-   the message (id, remote flag, extended flag, and also dlc, which python-can does not recompute)
-   is kept; then task.modify_data(msg) when the bus task has it, else stop + start again when the
-   data changed.  State: the message and its dlc. *)
+(* PeriodicMessageTask.update(data):  self.msg.data = new_data ; self.msg.dlc = len(new_data)  - in
+   place, every other attribute of the message (id, remote flag, extended flag) is kept (python-can
+   does not recompute dlc on assignment of .data, the library sets it since fix 7181830); then
+   task.modify_data(msg) when the bus task has it, else stop + start again when the data changed.
+   State: the message and its dlc. *)
 Inductive bus_call :=
 | BModify (f : frame) (dlc : Z)
 | BStop
@@ -209,8 +210,9 @@ Definition set_frame_data (f : frame) (d : list Z) : frame :=
 
 Definition periodic_update (modify : bool) (period : Z) (st : frame * Z) (d : list Z)
   : (frame * Z) * list bus_call :=
-  let '(m, dlc) := st in
+  let '(m, _) := st in
   let m' := set_frame_data m d in
+  let dlc := Z.of_nat (length d) in
   if modify then ((m', dlc), [BModify m' dlc])
   else if list_Z_eqb d (f_data m) then ((m', dlc), [])
   else ((m', dlc), [BStop; BSendPeriodic m' dlc period]).
